@@ -155,7 +155,8 @@ func agentAlphabet() []agentOp {
 	// extreme time points: a "never" deadline, the zero time, and collect times far outside the 1678..2262 range
 	ops = append(ops, agentOp{Kind: "start", ID: 0, T: 6}, agentOp{Kind: "start", ID: 1, T: 0}, agentOp{Kind: "start", ID: 2, T: 7},
 		agentOp{Kind: "collect", T: 6}, agentOp{Kind: "collect", T: 7}, agentOp{Kind: "collect", T: 0})
-	ops = append(ops, agentOp{Kind: "sethandler", H: 1}, agentOp{Kind: "sethandler", H: 2}, agentOp{Kind: "close"})
+	// (sethandler with H 0 installs a nil Handler: like NewAgent(nil), events then go nowhere)
+	ops = append(ops, agentOp{Kind: "sethandler", H: 1}, agentOp{Kind: "sethandler", H: 2}, agentOp{Kind: "sethandler", H: 0}, agentOp{Kind: "close"})
 	return ops
 }
 
@@ -300,6 +301,14 @@ func (r *agentRun) apply(op agentOp) (key, detail string) {
 	}
 	got := append([]ref.AgentEvent(nil), r.events...)
 	ref.SortEvents(got)
+	// events addressed to the nil handler are not observable
+	var seenBySomebody []ref.AgentEvent
+	for _, e := range wantEv {
+		if e.Handler != 0 {
+			seenBySomebody = append(seenBySomebody, e)
+		}
+	}
+	wantEv = seenBySomebody
 	if len(got) != len(wantEv) {
 		return "events/" + op.Kind, fmt.Sprintf("%v emitted %v, specification says %v", op, got, wantEv)
 	}
@@ -770,11 +779,16 @@ func init() {
 			}
 			c13IDVariant = 0
 			// 3. many ids at one Collect: n = 0..300 transactions, all / half / none of them expired
+			manyN := []int{}
 			for n := 0; n <= 300; n++ {
+				manyN = append(manyN, n)
+			}
+			manyN = append(manyN, 1023, 1024, 1025, 1100, 2047, 2048, 2049, 3000) // tables a map would be resized / rebuilt at
+			for _, n := range manyN {
 				if !c.Mine(int64(n)) {
 					continue
 				}
-				for _, k := range []int{n, n / 2, 0, 1} {
+				for _, k := range []int{n, n / 2, 0, 1, 3 * n / 4, n - 1} {
 					if k > n {
 						continue
 					}
